@@ -27,7 +27,7 @@ import (
 	"github.com/google/mtail/verif/fsdrv"
 )
 
-const watchdog = 15 * time.Second
+const watchdog = 60 * time.Second
 
 type step struct {
 	Op   string `json:"op"` // create delete rename mkdir rmdir
